@@ -9,6 +9,8 @@
    vary those). *)
 From Coq Require Import List.
 From Connect Require Import Recover.
+From Connect Require Import Generated.
+From Connect Require Plumbing.
 Import ListNotations.
 
 Theorem recover_spec : forall (V R : Type) (handle : pval V -> R) (outer inner : nat) (v : pval V),
@@ -39,3 +41,9 @@ Theorem recover_position_is_list_position :
   = run_chain V R handle (repeat IPass outer ++ IRecover :: repeat IPass inner) core.
 Proof. exact chain_with_recover_is_run_chain. Qed.
 Print Assumptions recover_position_is_list_position.
+
+(* [recover_wrap] describes ONE call: whether that call panicked is recorded in a
+   flag of its own, so calls of one procedure that overlap do not disturb each other *)
+Theorem panicked_flag_is_per_call : recover_flag_is_per_call = true.
+Proof. exact Plumbing.panicked_flag_is_per_call. Qed.
+Print Assumptions panicked_flag_is_per_call.
